@@ -38,5 +38,7 @@ pub fn run(tier: &str, seed: u64, only: Option<&str>) -> Run {
             Err(e) => run.fail("oracle:prepare", "", &c.id, e, c.text.clone()),
         }
     }
+    // taiko difficulty-object construction, colour / rhythm preprocessing (TKPRE lines)
+    crate::taikopre::run(&mut run, tier, seed, only, false);
     run
 }
